@@ -5,17 +5,19 @@ executable definition for that op and prints the model's result as one JSON line
 line numbers stay aligned with the input.
 -/
 import Driver.Notation
+import Driver.Indent
+import Driver.Print
 import Driver.TreeIO
 import Driver.RuleIO
 
 open Lean Driver
 
 def allOps : List (String × Handler) :=
-  notationOps
+  notationOps ++ indentOps ++ printOps
 
 /-- ops that read or extend the driver state (registered documents) -/
 def allStateOps : List (String × SHandler) :=
-  treeOps ++ ruleOps
+  treeOps ++ ruleOps ++ ruleOracleOps
 
 def derr (e : String) : String := (Json.mkObj [("driver_error", Json.str e)]).compress
 
